@@ -41,7 +41,7 @@ ASSUMPTIONS = [
 FLOORS = {"quick": {"compared": 15000, "compared_ok": 5000,
                     "compared_reject": 2000, "logger_compared": 300,
                     "mapping_compared": 300},
-          "thorough": {"compared": 600000, "compared_ok": 200000,
+          "thorough": {"compared": 400000, "compared_ok": 150000,
                        "compared_reject": 100000, "logger_compared": 20000,
                        "mapping_compared": 20000}}
 N_MODELS = {"quick": 300, "thorough": 10000}
